@@ -105,8 +105,8 @@ def run_case(spec):
 
 RULE = (
     'child started as mpservice Process / as a ProcessServlet worker / in a ProcessPoolExecutor emits 0-2000 records of 1 B-64 kB (total up to 8 MB) with generated logger names and levels; '
-    'the last record is the last statement of the target or is followed by a sleep; the target returns, raises or sys.exit(n); the parent handler is immediate or slow; parent level DEBUG/INFO/WARNING, one logger raised to ERROR. '
-    'Oracle: the parent-side collecting handler holds exactly the emitted records that pass the parent levels, once each, in emission order; join()/result() return. '
+    'the last record is the last statement of the target or is followed by a sleep; the target returns, raises or sys.exit(n); the parent handler is immediate or slow (1 or 5 ms per record); parent level DEBUG/INFO/WARNING, one logger raised to ERROR. '
+    'Oracle: the parent-side collecting handler holds exactly the emitted records that pass the parent levels, once each, in emission order; join()/result() return, and (direct Process) all records have been handled when result() returns or raises. '
     'Non-trivial: total bytes > 64 kB or the last record is emitted immediately before the end; distinct by case.'
 )
 
